@@ -69,6 +69,10 @@ CHECKS = {
    "TLA+ spec Table.tla (IsTable / Shape; negative control PadHeader) enumerated by TLC, every candidate concretised and converted; observed tables (HTML and AST) judged by the TLA+ acceptor TraceTable.tla together with the model's expectation",
    "TLC enumerates every candidate with 0..2 (thorough: 0..3) header cells x 1..2 (3) delimiter columns with all alignment assignments x up to 2 body rows of 0..3 (4) cells x 4 pipe-edge spellings x 8 cell kinds (escaped pipe, pipe in code span, empty cells, lone pipe, doubled trailing pipe, padding spaces, inline content) x {top level, block quote, list item} x with/without preceding paragraph text = 241920 documents, converted with Table / GFM / all extensions; TLC checks: exactly one header row, every body row as wide as the header, HTML and AST agree, filled cells carry their column's alignment, mismatched header => no table, matching header => one table of the predicted shape. 20000 (300000) pipe/dash/colon soup documents and the repository examples go through the clauses that need no expectation.",
    "TLC, Json/IOUtils; strict tokenizer; alignment rendering pinned to the align attribute", "DESIGN.md 3.6, 5/C17"),
+ "C16": ("model_checking",
+   "TLA+ spec Footnote.tla (generator + model of the bookkeeping in an intended and an as-coded mode) model-checked by TLC; every enumerated abstract document concretised and converted; observed ids / hrefs / numbers judged by the TLA+ acceptor TraceFootnote.tla; two known findings matched by cause",
+   "TLC enumerates every document of up to 3 (thorough: 4) items over definitions (optionally referencing another footnote in their body) and references in 9 placements (plain, emphasis, link text, image alt, heading, table cell, list item, block quote, strikethrough) with 2 labels: 18278 (thorough ~400k) documents, checks the P-invariants on the intended model and exhibits the known classes on the as-coded model; each document is converted under 3 configurations and TLC checks on the OUTPUT: items numbered fn:1..n in order, every reference links to an existing item and shows its number, ids distinct, every item has a rendered reference, back-links and references correspond one to one and sit in the right item. 8000 (150000) footnote-soup documents go through the same acceptor. Known findings are recognised by cause using a parse without the footnote AST transformer.",
+   "TLC, Json/IOUtils; strict tokenizer; default id forms; extension.NewFootnoteBlockParser/NewFootnoteParser used without the transformer for cause analysis", "DESIGN.md 3.5, 5/C16, 6"),
 }
 
 NOT_YET = "check not built yet in this revision of /verif (see DESIGN.md section 5 for the planned TLA+ decision procedure)"
